@@ -231,6 +231,7 @@ def compare(d):
     compared = 0
     spec_ok = 0
     inconclusive = 0
+    notes = []
     pairs_total = 0
     distinct = set()
     for i, line in enumerate(ops):
@@ -256,6 +257,8 @@ def compare(d):
                         pairs_total += int(m_.group(1))
                 elif v.startswith("S inconclusive"):
                     inconclusive += 1
+                elif v.startswith("S note"):
+                    notes.append(v[7:])
                 else:
                     spec_fail.append({"case": case, "op": last_op, "op_line": last_op_idx, "real": exp, "spec": v})
         elif line and not line.startswith("#"):
@@ -264,7 +267,7 @@ def compare(d):
     if mi != len(model):
         mismatches.append({"case": case, "op": "<end>", "op_line": len(ops), "real": "<end of expectations>",
                            "model": f"{len(model) - mi} extra model lines, first: {model[mi] if mi < len(model) else ''}"})
-    return {"compared": compared, "mismatches": mismatches, "spec_fail": spec_fail, "spec_ok": spec_ok, "inconclusive": inconclusive, "pairs_total": pairs_total,
+    return {"compared": compared, "mismatches": mismatches, "spec_fail": spec_fail, "spec_ok": spec_ok, "inconclusive": inconclusive, "pairs_total": pairs_total, "notes": notes,
             "distinct": len(distinct), "case_start": case_start, "ops": ops}
 
 
